@@ -21,7 +21,7 @@ git -C /repo apply $OUT/patch.diff || { echo "patch does not apply to /repo"; ex
 cd /verif
 : > $OUT/checks.txt
 for c in "$@"; do
-  echo "== check $c"; /venv/bin/python -u -m vf $c --tier quick > $OUT/check_$c.txt 2>&1; rc=$?
+  echo "== check $c"; timeout 2400 /venv/bin/python -u -m vf $c --tier quick > $OUT/check_$c.txt 2>&1; rc=$?
   echo "$c exit=$rc $(grep -c '^VIOLATION' $OUT/check_$c.txt) violation lines" | tee -a $OUT/checks.txt
   grep -A1 '^VIOLATION' $OUT/check_$c.txt | head -4 | cut -c1-400
   grep '^HARNESS' $OUT/check_$c.txt | head -3 | cut -c1-300
